@@ -339,15 +339,24 @@ def writeMsg (L Lu : Msg → Nat) (cfg : Cfg) (w : Writer) (m : Msg) : Msg :=
 
 /-! ### Chain.CancelWithRcode, EDNS.ServeDNS -/
 
-/-- `Msg.SetRcode(req, rcode)` + the two forced bits + `opt.SetDo(do)` of
-`Chain.CancelWithRcode`; `m.Extra = req.Extra` (the request's OPT rides along). -/
+/-- `Chain.CancelWithRcode`: `Msg.SetRcode(req, rcode)` + the two forced bits;
+the additional section is BUILT, not copied: one OPT if the request has one,
+with the request OPT's header (size, version), DO as given, and of its options
+only the COOKIE ones (a caller may have completed one with the server's half).
+Whether "the request has one" means the client's own packet is the caller's
+`clientView` below. -/
 def cancelWithRcode (q : Query) (rcode : Nat) (do_ : Bool) : Msg :=
   { id := q.id, opcode := q.opcode, rcode := rcode,
     fl := { qr := true, rd := true, ra := true, cd := if q.opcode = 0 then q.cd else false },
     question := some q.question,
     extra := match q.opt with
-      | some o => [.opt { o with doBit := do_ } true]
+      | some o => [.opt { o with doBit := do_, options := o.options.filter (fun x => x.code == codeCookie) } true]
       | none => [] }
+
+/-- `Request.clientSentOPT` applied to the request as it stands: an OPT that a
+later materialisation appended for the upstream query does not count. -/
+def clientView (reqNow : Query) (clientSentOPT : Bool) : Query :=
+  if clientSentOPT then reqNow else { reqNow with opt := none }
 
 def streamProto : Proto → Bool
   | .tcp => true | .doq => true | .doh => true | .udp => false
@@ -394,7 +403,10 @@ def serveDNS (L Lu : Msg → Nat) (c : Consts) (cfg : Cfg) (proto : Proto) (q : 
 /-- what the rest of the chain did: returned (having written `m`, or nothing), or panicked. -/
 inductive Outcome where
   | done (m : Option Msg)
+  /-- panicked after the request was decoded (or on a message-born request) -/
   | panic
+  /-- panicked while a wire-born request was still undecoded -/
+  | panicUndecoded
 deriving Repr
 
 def rcodeServFail : Nat := 2
@@ -420,7 +432,11 @@ def serveGuarded (L Lu : Msg → Nat) (c : Consts) (cfg : Cfg) (proto : Proto) (
   else
     match next (normalised q s) with
     | .done m => m.map (writeMsg L Lu cfg (if wireBorn then writerWire c proto q else writerDecoded c proto q s))
-    | .panic => some (cancelWithRcode (restoreClientView (normalised q s) q.opt.isNone) rcodeServFail false)
+    | .panic =>
+      some (cancelWithRcode (clientView (restoreClientView (normalised q s) q.opt.isNone) q.opt.isSome) rcodeServFail false)
+    | .panicUndecoded =>
+      -- edns's restore is skipped; recovery materialises the request through SetEdns0
+      some (cancelWithRcode (clientView (normalised q s) q.opt.isSome) rcodeServFail false)
 
 /-- `EDNS.serveWire`: only entered for opcode 0 and (no OPT or version 0). -/
 def serveWireBorn (L Lu : Msg → Nat) (c : Consts) (cfg : Cfg) (proto : Proto) (q : Query)
@@ -726,5 +742,22 @@ def serveWireInto (e : WEntry) (q : Query) (do_ : Bool) : Option (Msg × WireInf
     some ({ b with id := q.id, opcode := q.opcode, question := some q.question,
                    fl := { b.fl with qr := true, aa := false, rd := q.rd, cd := q.cd, ad := ad } },
           { rcode := b.rcode, ad := ad, hasDnssec := flag && storedQtype e.stored != typeRRSIG, ede := e.ede })
+
+/-! ### the byte-path alias chase (`composeWireChase`) -/
+
+/-- the merged authentication verdict of a composed chain: every segment was
+authenticated, and the client did not set CD. -/
+def chaseAD (segAD : List Bool) (cd : Bool) : Bool := segAD.all id && !cd
+
+/-- `composeWireChase`: the alias entry's stored header with the reply stamp
+(`wire.ApplyReply`), the concatenated answers of the segments, no authority or
+additional records, AD = the merged verdict; and the facts handed to the writer
+chain. `segAD` are the stored AD bits of the alias and of every entry chased through. -/
+def composeChase (alias : Msg) (segAD : List Bool) (answers : List RR) (segDnssec : Bool) (q : Query) : Msg × WireInfo :=
+  let ad := chaseAD segAD q.cd
+  ({ alias with id := q.id, opcode := q.opcode, rcode := 0, question := some q.question,
+                fl := { alias.fl with qr := true, aa := false, rd := q.rd, cd := q.cd, ad := ad },
+                answer := answers, ns := [], extra := [] },
+   { rcode := 0, ad := ad, hasDnssec := segDnssec && q.question.qtype != typeRRSIG, ede := none })
 
 end SdnsVerif.Model.Edns
